@@ -8,12 +8,13 @@
      * results as sets do not depend on the listing order of the input sets;
      * candidate pool of the minor stage: independence under the per-structure filter when the pool adds nothing; the shipped
        "last structure" filter and the pooled variant list are refuted by witnesses.
-   Observed by harness/c14.py, NOT proved: that the transcriptions in Frame.v are what the Python code does (deep snapshots of
+   The hand transcriptions of Frame.v are accompanied by programs regenerated from the source (C14_tie_ops_here_frame); the translator's
+   classification of Python expressions is trusted.  Observed by harness/c14.py, NOT proved: that the transcriptions in Frame.v are what the Python code does (deep snapshots of
    Gene / Coverage / Sample before and after every operation, compared with a fresh load); process-level determinism (repeat,
    other genes in between, multi-gene runs, failing genes); independence of PYTHONHASHSEED (fresh processes, seeds 0-7);
    CPython object identity; the process-wide debug store aldy.common.json. *)
 From Coq Require Import String Permutation.
-From Aldy Require Import Base Consts Frame FrameProofs.
+From Aldy Require Import Base Consts Frame FrameProofs Frame_here Tied_frame.
 Import List.
 Open Scope Z_scope.
 
@@ -40,6 +41,23 @@ Theorem C14_all_ops_local : forall v, forallb (fun np => locals_only (snd np)) (
 Proof. exact all_ops_local. Qed.
 Goal True. idtac "ASSUME C14_all_ops_local". Abort.
 Print Assumptions C14_all_ops_local.
+
+(* ---- tie by translation: the aliasing programs REGENERATED from /repo's current sources on every run (gen/Frame_here.v, written by
+   harness/gen_frame.py from the Python AST of 21 operations: the accessors and writers, the three stage functions and their model
+   builders, the evidence filters, Coverage / CNSolution construction, Sample._make_coverage, genotype()) write only to containers
+   they created themselves and bind only their own locals; hence no location of the loaded database or of the sample evidence
+   changes, and every root keeps its content.  A code change that makes one of these operations write through an alias of a
+   database / evidence container (the defects repaired by 038319a and 0cb63f3 were of that kind) changes the generated program
+   and this obligation fails. ---- *)
+Theorem C14_tie_ops_here_frame : forall name p st, In (name, p) ops_here ->
+  (forall l, l < next st -> alookup Z.eqb l (heap (exec p st)) = alookup Z.eqb l (heap st)) /\
+  (forall x l, x < 100 -> alookup Z.eqb x (env st) = Some l -> l < next st -> content (exec p st) x = content st x).
+Proof. exact frame_ops_here. Qed.
+Goal True. idtac "ASSUME C14_tie_ops_here_frame". Abort.
+Print Assumptions C14_tie_ops_here_frame.
+Example C14_tie_ops_here_nonempty :
+  existsb (fun np : str * prog => str_eqb (fst np) (s "SolvedAllele.mutations")) ops_here = true /\ (10 <= length ops_here)%nat.
+Proof. exact ops_here_nonempty. Qed.
 
 (* shipped tree: every transcribed operation passes except SolvedAllele.mutations ... *)
 Theorem C14_shipped_ops_safe_except_mutations :
